@@ -106,6 +106,12 @@ def _mk(kind, **changes):
             index = v
         elif k == 'ints':
             data = {c: ([int(x * 10) for x in vals] if c in ('pressure', 'loading') and v == 'int' else [float(int(x * 10)) for x in vals] if c in ('pressure', 'loading') else vals) for c, vals in data.items()}
+        elif k == 'branch_type':
+            marks = data['branch']
+            if v == 'guess':
+                data = {c: vals for c, vals in data.items() if c != 'branch'}
+            else:
+                data = dict(data, branch=[{'bool': bool, 'float': float, 'int': int}[v](x) for x in marks])
         elif k.startswith('model.'):
             sub = k.split('.', 1)[1]
             if sub.startswith('params.'):
@@ -192,12 +198,19 @@ def glue_block(_b):
             obs.append(static_ob(f"{b}/only_content.filled_caches_do_not_change_document/point", d3 == base_doc and _same_digest_arg(base_fr, f3), '', backend='trace',
                                  replay={'kind': 'c05.pair', 'iso': 'point', 'change': {'caches': True}, 'expect': 'same'}))
             for label, ch in (('row_labels_5_6_7_8', {'index': [5, 6, 7, 8]}), ('row_labels_strings', {'index': list('wxyz')}),
-                              ('integer_literals', {'ints': 'int'})):
+                              ('integer_literals', {'ints': 'int'}), ('branch_marks_as_booleans', {'branch_type': 'bool'}),
+                              ('branch_marks_as_floats', {'branch_type': 'float'}), ('branch_marks_guessed', {'branch_type': 'guess'})):
                 ref = _mk('point', ints='float') if label == 'integer_literals' else _mk('point')
                 dr, fr, _k, _ = _document(ref)
                 d4, f4, _k, _ = _document(_mk('point', **ch))
                 obs.append(static_ob(f"{b}/only_content.digest_argument_independent_of_{label}/point", d4 == dr and _same_digest_arg(fr, f4), '', backend='trace',
                                      replay={'kind': 'c05.pair', 'iso': 'point', 'change': ch, 'expect': 'same'}))
+            # pandas digests depend on the column type: every numeric (or boolean) column reaches the digest as float64
+            for label, ch in (('as_stored', {}), ('integer_literals', {'ints': 'int'}), ('boolean_marks', {'branch_type': 'bool'})):
+                _d, fr_, _k, _ = _document(_mk('point', **ch))
+                bad = [f"{c}:{fr_[0][c].dtype}" for c in fr_[0].columns if str(fr_[0][c].dtype) not in ('float64', 'object')]
+                obs.append(static_ob(f"{b}/callsite.digest_argument_numeric_columns_are_float64/point|{label}", not bad, ', '.join(bad), backend='trace',
+                                     replay={'kind': 'c05.pair', 'iso': 'point', 'change': ch or {'branch_type': 'bool'}, 'expect': 'same'}))
             # values equal to 8 decimals give the same digest argument
             d5, f5, _k, _ = _document(_mk('point', **{'data.loading.1': 2.000000001}))
             obs.append(static_ob(f"{b}/only_content.equal_to_8_decimals_same_digest_argument/point", d5 == base_doc and _same_digest_arg(base_fr, f5), '', backend='trace',
